@@ -123,7 +123,7 @@ def check_state(pool, st, model, ctx, where, problems):
                 for i, (g, w) in enumerate(zip(got, want)):
                     if g is w:
                         continue
-                    if g is None or not (ctx.poly(g) - ctx.poly(w)).is_zero():
+                    if not _same(ctx, g, w):
                         problems.append('%s: slot %d component %d is %s, expected %s' % (where, k, i, T.show(g, 3), T.show(w, 3)))
                         break
                 if ms['bind'] != 'own':
@@ -155,9 +155,19 @@ def check_state(pool, st, model, ctx, where, problems):
         for i, (g, w) in enumerate(zip(cur, model.bufs[b])):
             if g is w:
                 continue
-            if g is None or not (ctx.poly(g) - ctx.poly(w)).is_zero():
+            if not _same(ctx, g, w):
                 problems.append('%s: user buffer %d cell %d changed to %s, expected %s' % (where, b, i, T.show(g, 3), T.show(w, 3)))
                 break
+
+
+def _same(ctx, g, w):
+    """the stored value g is the polynomial w; a cell that holds no value at all (never written, or computed from such a cell) is different from everything"""
+    if g is None:
+        return False
+    try:
+        return (ctx.poly(g) - ctx.poly(w)).is_zero()
+    except TypeError:
+        return False
 
 
 def run_history(pool, st0, model0, history, ctx):
@@ -202,7 +212,7 @@ def run_history(pool, st0, model0, history, ctx):
                     continue
                 raw = pool.raw(r.state, 4)
                 got = pool.values(r.state, 4)
-                if raw['dim'] != d or got is None or len(got) != len(want) or any((g is not w) and (g is None or not (ctx.poly(g) - ctx.poly(w)).is_zero()) for g, w in zip(got, want)):
+                if raw['dim'] != d or got is None or len(got) != len(want) or any((g is not w) and not _same(ctx, g, w) for g, w in zip(got, want)):
                     problems.append('after the history a copy of slot %d has dimension %r / other values than the vector should hold (dimension %d)' % (k, raw['dim'], d))
                     continue
                 for r2 in pool.step(r.state, Ins('EQ', t=k, s1=4)):
